@@ -40,7 +40,7 @@ PreSet  == { <<>>, <<BLine>>, <<Cmt>>, <<Cmt, BLine>> }
 SepSet  == { <<BLine>>, <<BLine, BLine>>, <<BLine, Cmt, BLine>>, <<BLine, Cmt2>> }
 PostSet == { <<>>, <<BLine>>, <<BLine, Cmt>>, <<BLine, BLine>> }
 
-\* dbl: every comment placed by cb / ct is a RUN of two comment lines (only generated when there is such a comment)
+\* dbl: every comment placed by cb / ct is a RUN of three comment lines (only generated when there is such a comment)
 Lays(sh) == { [pre |-> a, sep |-> b, post |-> c, term |-> t, cb |-> cb, ct |-> ct, dbl |-> d] :
                 a \in PreSet, b \in SepSet, c \in PostSet, t \in BOOLEAN,
                 cb \in SUBSET (1..NF(sh)), ct \in SUBSET (1..Len(sh)), d \in BOOLEAN }
@@ -52,8 +52,8 @@ DefaultLay == [pre |-> <<>>, sep |-> <<BLine>>, post |-> <<>>, term |-> TRUE, cb
 \* lines of paragraph p (fields numbered globally from g0+1)
 RECURSIVE ParaLines(_,_,_,_,_,_)
 ParaLines(n, g, r, v, lay, p) ==
-  IF n = 0 THEN (IF p \in lay.ct THEN (IF lay.dbl THEN <<Cmt, Cmt2>> ELSE <<Cmt>>) ELSE <<>>)
-  ELSE (IF g \in lay.cb THEN (IF lay.dbl THEN <<Cmt2, Cmt>> ELSE <<Cmt2>>) ELSE <<>>)
+  IF n = 0 THEN (IF p \in lay.ct THEN (IF lay.dbl THEN <<Cmt, Cmt2, Cmt>> ELSE <<Cmt>>) ELSE <<>>)
+  ELSE (IF g \in lay.cb THEN (IF lay.dbl THEN <<Cmt2, Cmt, Cmt2>> ELSE <<Cmt2>>) ELSE <<>>)
        \o FieldLines(IF g = r THEN v ELSE PlainV)
        \o ParaLines(n-1, g+1, r, v, lay, p)
 
